@@ -126,7 +126,7 @@ class OptimizationGroup:
         result_dataset["weighted_residual"] = result_dataset["residual"]
         result_dataset["residual"] = result_dataset["residual"] / weight
         if "weight" not in result_dataset:
-            if weight.shape != result_dataset.data.shape:
+            if result_dataset.data.dims[0] != self._data_provider.get_model_dimension(dataset_label):
                 weight = weight.T
             result_dataset["weight"] = (result_dataset.data.dims, weight)
 
